@@ -23,6 +23,9 @@ CLAIMS = {
  "C10": dict(cat="exploration", tech="rapid state-machine (model-based) testing against a reference map, three backends in lock-step",
    text="Generated call sequences run in lock-step on the memory, Secret and ConfigMap backends and a reference map; every result and a periodic full scan are compared.",
    note="Secret/ConfigMap drivers run over client-go's fake clientset; SQL driver not covered."),
+ "C13": dict(cat="exploration", tech="rapid generation of install/upgrade/rollback chains with a reference ledger of (user values, defaults in force); leaf-path comparison with stored Config and with a probe template's rendered .Values",
+   text="Chains of upgrades with every values flag, fresh value trees (nulls, empty tables, type changes), changing chart defaults and occasional failing upgrades, on the Secret backend; recorded values and what the templates saw are compared with a reference ledger.",
+   note="Single-level charts; JSON-native values; one genuine defect (reuse-values bakes effective values into chart defaults) listed as known finding."),
  "C12": dict(cat="exploration", tech="rapid history generation over hook sets with one failing hook; reference model of documented hook semantics compared against the global request/wait order",
    text="Generated hook sets (events, weights with ties, shuffled names, kinds, all delete-policy combinations) across histories with a chosen hook failing; order, gating, delete policies and leftovers are compared with a reference model.",
    note="Hook completion is a scripted waiter outcome; simulated world as C01."),
